@@ -8,6 +8,7 @@ pub mod c06;
 pub mod c07;
 pub mod c08;
 pub mod c09;
+pub mod c11;
 pub mod c14;
 pub mod c15;
 pub mod c20;
@@ -30,6 +31,7 @@ pub fn dispatch(engine: &str, cfg: &Cfg) -> i32 {
         "c07" => c07::run(cfg),
         "c08" => c08::run(cfg),
         "c09" => c09::run(cfg),
+        "c11" => c11::run(cfg),
         "c14" => c14::run(cfg),
         "c15" => c15::run(cfg),
         "c20" => c20::run(cfg),
